@@ -4,6 +4,7 @@ package c07
 
 import (
 	"fmt"
+	"os"
 	"runtime"
 	"runtime/debug"
 	"strings"
@@ -103,6 +104,12 @@ func TestC07(t *testing.T) {
 	shard, nshards := vmon.Shard()
 	rng := vmon.NewRng(vmon.Seed(), uint64(700+shard))
 	w := &world{rep: rep, gc: vmon.NewGCMon()}
+	if os.Getenv("VERIF_C07_DEBUG") == "1" {
+		// every replacement behind goom's logging wrapper: the same rules hold
+		mocker.OpenDebug()
+		defer mocker.CloseDebug()
+		rep.Class("debug-logging")
+	}
 	if shard%2 == 1 {
 		// garbage collections at arbitrary points of every history
 		stopGC := make(chan struct{})
